@@ -1329,6 +1329,9 @@ def correspond(cfg, acc, recs):
     items, want = [], []
     for rec in recs:
         f, cid = rec['f'], rec['spec']['cid']
+        if cfg.get('quick') and rec['spec']['kind'] == 'o2' and rec['spec']['meta'].get('form') == 'full':
+            acc.count('k_skipped_quick_fullparen_duplicate')     # same operators as the plain text of the sequence
+            continue
         if f[0] == 'OK':
             items.append((cid, 'parse', [f[1]]))
             rec['rt'] = bool(rec['spec'].get('rt')) and len(rec['spec']['src']) < 4096
@@ -1595,7 +1598,7 @@ def o2_raw(rng, tier):
             seqs += enum_seqs(n, SYM_BIN_ALL)
         seen = set(seqs)
         k = 0
-        while k < 1500:
+        while k < 600:
             s = random_seq(rng, rng.choice([3, 4]), SYM_BIN_ALL)
             if s not in seen:
                 seen.add(s)
@@ -1659,18 +1662,19 @@ def check(run):
     pools = build_pools(impl_exe)
     cfg = {'exe': impl_exe, 'model': model_exe, 'seed': run.seed, 'pools': pools, 'timeout': 600}
     quick = run.tier == 'quick'
+    cfg['quick'] = quick
     # corpus first (in every worker's batch), then the generated streams; accepted corpus / O1 texts also
     # seed the token-level malformed stream (spec['derive'] mutations each)
     cspecs, nfiles, skipped = corpus_specs()
     run.count('corpus_files', nfiles)
     run.count('corpus_files_skipped_large', skipped)
     for s in cspecs:
-        s['derive'] = 2 if quick else 6
-    o1 = o1_specs(rng, pools, 1200 if quick else 30000)
+        s['derive'] = 1 if quick else 6
+    o1 = o1_specs(rng, pools, 600 if quick else 30000)
     for i, s in enumerate(o1):
-        if s['kind'] == 'o1min' and i % 2 == 0:
+        if s['kind'] == 'o1min' and i % (4 if quick else 2) == 0:
             s['derive'] = 1 if quick else 2
-    raw = cspecs + o3_specs() + o1 + o2_raw(rng, run.tier) + soup_specs(rng, 400 if quick else 6000)
+    raw = cspecs + o3_specs() + o1 + o2_raw(rng, run.tier) + soup_specs(rng, 300 if quick else 6000)
     # model printer round trip (`rt min` / `rt red`): every corpus line, plus a seeded sample of the other
     # texts that are expected to be accepted (sources < 4 KB; the two pathological nesting files are left out)
     cand = [s for s in raw if s['kind'] in ('file', 'o1min', 'o1red', 'o3') and len(s.get('src') or b'') < 4096
